@@ -1,6 +1,7 @@
 package main
 
 import (
+	"go/types"
 	"encoding/json"
 	"flag"
 	"fmt"
@@ -243,7 +244,7 @@ func cmdCheck(args []string) int {
 		}
 		vc := newFnVC(p, fn, p.cs.Funcs[id], id)
 		vc.prop = *prop
-		scanOnly := !hasTag(vc.fc.Tags, *prop)
+		scanOnly := !hasTag(vc.fc.Tags, *prop) || *prop == "C19"
 		for _, cl := range vc.fc.Ensures {
 			if hasTag(cl.Tags, *prop) {
 				scanOnly = false
@@ -255,6 +256,12 @@ func cmdCheck(args []string) int {
 		vcs = append(vcs, vc)
 		for _, o := range vc.preservesObligations() {
 			if hasTag(o.Tags, *prop) {
+				all = append(all, o)
+				preSolved[o] = true
+			}
+		}
+		if *prop == "C19" {
+			for _, o := range vc.taintObligations() {
 				all = append(all, o)
 				preSolved[o] = true
 			}
@@ -341,6 +348,92 @@ func cmdCheck(args []string) int {
 		all = append(all, o)
 		preSolved[o] = true
 	}
+	if *prop == "C19" {
+		// completeness: every store into SchemaError.Reason of the module sits in a function that
+		// is under a C19 contract (so a new reason site cannot escape the label obligations)
+		verifiedFns := map[*ssa.Function]bool{}
+		for _, vc := range vcs {
+			verifiedFns[vc.fn] = true
+		}
+		var bad []string
+		sites := 0
+		for fn := range p.allFns {
+			if !inModule(fn) {
+				continue
+			}
+			for _, b := range fn.Blocks {
+				for _, ins := range b.Instrs {
+					st, ok := ins.(*ssa.Store)
+					if !ok {
+						continue
+					}
+					fa, ok := st.Addr.(*ssa.FieldAddr)
+					if !ok {
+						continue
+					}
+					stT := fa.X.Type().Underlying().(*types.Pointer).Elem()
+					if n := namedOf(stT); n == nil || n.Obj().Name() != "SchemaError" {
+						continue
+					}
+					if stT.Underlying().(*types.Struct).Field(fa.Field).Name() != "Reason" {
+						continue
+					}
+					sites++
+					if !verifiedFns[fn] {
+						bad = append(bad, fn.String())
+					}
+				}
+			}
+		}
+		o := &Obligation{Name: "openapi3.SchemaError.Reason/all-sites-under-contract", Class: "frame-scan", Func: "SchemaError.Reason", Tags: []string{"C19"}, Expect: "unsat", Src: fmt.Sprintf("%d stores into SchemaError.Reason in the module", sites)}
+		o.Result = &SolveResult{Status: "unsat", Solver: "callgraph-scan"}
+		sort.Strings(bad)
+		if len(bad) > 0 {
+			o.Result = &SolveResult{Status: "sat", Solver: "callgraph-scan", Output: "Reason is set outside the functions under a C19 contract: " + strings.Join(bad, ", ")}
+		}
+		all = append(all, o)
+		preSolved[o] = true
+	}
+	// types all of whose methods must be under contract for this property (a method added later
+	// without a contract would silently escape the argument that relies on "every method ...")
+	for _, am := range p.cs.AllMethods {
+		if !hasTag(am.Tags, *prop) {
+			continue
+		}
+		sp := p.ssaPkgs[am.Pkg]
+		if sp == nil {
+			continue
+		}
+		tn, _ := sp.Pkg.Scope().Lookup(am.Type).(*types.TypeName)
+		o := &Obligation{Name: sp.Pkg.Name() + "." + am.Type + "/all-methods-under-contract", Class: "frame-scan", Func: am.Type, Tags: am.Tags, Expect: "unsat", Src: "allmethods " + am.Type}
+		o.Result = &SolveResult{Status: "unsat", Solver: "callgraph-scan"}
+		if tn == nil {
+			o.Result = &SolveResult{Status: "error", Output: "no such type"}
+		} else {
+			var missing []string
+			ms := p.ssa.MethodSets.MethodSet(types.NewPointer(tn.Type()))
+			for i := 0; i < ms.Len(); i++ {
+				fn := p.ssa.MethodValue(ms.At(i))
+				if fn == nil || !inModule(fn) {
+					continue
+				}
+				if fn.Synthetic != "" {
+					// promoted through an embedded field: look at the declared method
+					continue
+				}
+				fc := p.contractOf(fn)
+				if fc == nil || !hasTag(fc.Tags, *prop) {
+					missing = append(missing, fn.Name())
+				}
+			}
+			sort.Strings(missing)
+			if len(missing) > 0 {
+				o.Result = &SolveResult{Status: "sat", Solver: "callgraph-scan", Output: "methods without a contract for " + *prop + ": " + strings.Join(missing, ", ")}
+			}
+		}
+		all = append(all, o)
+		preSolved[o] = true
+	}
 	// `global nonnil` variables relied upon by the VCs of this run
 	nonNilSeen := map[*ssa.Global]bool{}
 	for _, vc := range vcs {
@@ -354,6 +447,52 @@ func cmdCheck(args []string) int {
 				o.Result = &SolveResult{Status: "sat", Solver: "callgraph-scan", Output: why}
 			} else {
 				o.Result = &SolveResult{Status: "unsat", Solver: "callgraph-scan"}
+			}
+			all = append(all, o)
+			preSolved[o] = true
+		}
+	}
+	// registries declared `global mapvalues-nonnil`: every module site that stores into them
+	// stores a parameter that the enclosing function's contract requires to be non-nil
+	mapSeen := map[*ssa.Global]bool{}
+	for _, vc := range vcs {
+		for g := range vc.usedMapNonNil {
+			if mapSeen[g] {
+				continue
+			}
+			mapSeen[g] = true
+			o := &Obligation{Name: g.Pkg.Pkg.Name() + "." + g.Name() + "/global/stored-values-nonnil", Class: "frame-scan", Func: g.Name(), Tags: []string{*prop}, Expect: "unsat", Src: "global mapvalues-nonnil " + g.Name()}
+			o.Result = &SolveResult{Status: "unsat", Solver: "callgraph-scan"}
+			var bad []string
+			for fn := range p.allFns {
+				if !inModule(fn) {
+					continue
+				}
+				for _, b := range fn.Blocks {
+					for _, ins := range b.Instrs {
+						mu, ok := ins.(*ssa.MapUpdate)
+						if !ok || globalRoot(mu.Map) != g {
+							continue
+						}
+						okSite := false
+						if prm, isParam := mu.Value.(*ssa.Parameter); isParam {
+							if fc := p.contractOf(fn); fc != nil {
+								for _, cl := range fc.Requires {
+									if strings.Contains(strings.ReplaceAll(cl.Src, " ", ""), prm.Name()+"!=nil") {
+										okSite = true
+									}
+								}
+							}
+						}
+						if !okSite {
+							bad = append(bad, fn.String())
+						}
+					}
+				}
+			}
+			sort.Strings(bad)
+			if len(bad) > 0 {
+				o.Result = &SolveResult{Status: "sat", Solver: "callgraph-scan", Output: "stores a value not required to be non-nil: " + strings.Join(bad, ", ")}
 			}
 			all = append(all, o)
 			preSolved[o] = true
